@@ -8,6 +8,8 @@
 (*               low byte or low bits collide with a hex digit or the       *)
 (*               hyphen, lone bytes 128..255 = invalid UTF-8).              *)
 (*   InitCanonSub : every position of the canonical form replaced likewise *)
+(*   InitWide  : every code point 0..255 and every lone byte 128..255 in    *)
+(*               the digit positions of both forms                         *)
 (*   InitIns   : a character inserted at every position of 31/32/33 digits *)
 (*   InitCanon : mutations of the canonical 8-4-4-4-12 form                *)
 (*   InitV1    : TimeUUIDWith(t, clock, node) at timestamp field boundaries*)
@@ -107,6 +109,21 @@ CanonCases ==
 \* every position of the canonical text (digits and hyphens) replaced by every alphabet entry
 InitCanonSub == c \in {x \in [p : 1 .. 36, a : 1 .. NX] : (x.p + x.a) % NShard = Shard}
 EmitCanonSub == PrintT(<<"CASE", ToJson(ParseCase(SetAt(CanonS, c.p, Alphabet[c.a])))>>)
+\* ---- the whole byte range: every code point 0 .. 255 (all ASCII control characters, every ASCII
+\* character one bit away from a hex digit - case folding, masking -, Latin-1) and every lone byte
+\* 128 .. 255, in the digit positions of the 32-digit string (f = 1) and in every position of the
+\* canonical form (f = 2).  Quick tier: the first and last byte's nibbles always, the other positions
+\* sampled by WStride (rotated by the seed).
+Wide == [i \in 1 .. 384 |-> IF i <= 256 THEN i - 1 ELSE Raw(i - 129)]
+WStride == EnvNat("VF_WSTRIDE", 1)
+InitWide ==
+  c \in {x \in [f : 1 .. 2, p : 1 .. 36, a : 1 .. 384] :
+           /\ (x.p + x.a) % NShard = Shard
+           /\ (x.f = 1 => x.p <= 32)
+           /\ (x.p \in {1, 2} \/ (x.f = 1 /\ x.p \in {31, 32}) \/ (x.f = 2 /\ x.p \in {35, 36})
+               \/ (x.p * 7 + x.a + Seed) % WStride = 0)}
+EmitWide == PrintT(<<"CASE", ToJson(ParseCase(SetAt(IF c.f = 1 THEN PatStr(32) ELSE CanonS, c.p, Wide[c.a])))>>)
+ASSUME Wide[1] = 0 /\ Wide[256] = 255 /\ Wide[257] = Raw(128) /\ Wide[384] = Raw(255)
 InitCanon == c \in [i : 1 .. Len(CanonCases)]
 \* the one-pass ParseCase agrees with the definitions of Uuid.tla
 ASSUME \A i \in 1 .. Len(CanonCases) :
